@@ -145,6 +145,17 @@ def definitions():
     return ds
 
 
+class _NoTables(tuple):
+    """what the (private) table helper hands to checkEquation in this world: nothing - whether the caller spreads it with * or **"""
+    _abs_native = True
+
+    def keys(self):
+        return []
+
+    def __getitem__(self, k):
+        raise KeyError(k)
+
+
 class SymMat(SymArr):
     """sympy-Matrix flavoured array of canonical rational functions: flat single-integer indexing, iteration over elements"""
 
@@ -229,7 +240,7 @@ def summaries():
             return SymMat((len(v), len(v[0])), [x for row in v for x in row])
         return SymMat((len(v), 1), v)
     return {
-        "checkEquation": check_equation, "Model._getListOfVariablesDict": lambda me: ([], {}),
+        "checkEquation": check_equation, "Model._getListOfVariablesDict": lambda me: _NoTables(),
         "sympy.zeros": zeros, "np.zeros": zeros, "sympy.Matrix.zeros": zeros,
         "simplifyEquation": lambda e: (e, False), "copy.deepcopy": lambda x: x.copy() if hasattr(x, "copy") else x,
         "sympy.Integer": lambda v: A.Rat.const(int(v)), "sympy.S": lambda v: A.lift(v), "sympy.sympify": lambda v: A.lift(v),
